@@ -48,6 +48,23 @@ def decl_unit(case, docs=False, extra_lines=(), uid=None, meta=None):
     return Unit(uid or case["id"], L, parts, meta=dict(case=case, **(meta or {})))
 
 
+def pair_unit(uid, pos, neg, neg_first):
+    """both twins in one unit (one macro process sees them one after the other): parts 'pos' and 'neg'"""
+    L = ["pub mod c_%s {" % uid]
+    parts = []
+    for name, case in ((("neg", neg), ("pos", pos)) if neg_first else (("pos", pos), ("neg", neg))):
+        L += ["    pub mod %s {" % name, "        #![allow(dead_code, non_camel_case_types, deprecated, unused_imports, unused_variables)]",
+              "        use arbitrary_int::*;", "        use bitbybit::{bitenum, bitfield};"]
+        for h in case.get("helpers", []):
+            L += ["        " + l for l in emit.helper_decl(h)]
+        s0 = len(L)
+        L += ["        " + l for l in emit.bitfield_decl(case)]
+        parts.append((name, s0 + 1, len(L)))
+        L.append("    }")
+    L.append("}")
+    return Unit(uid, L, parts, meta=dict(case=neg))
+
+
 def unit_text(u):
     return "\n".join(u.lines)
 
@@ -96,6 +113,9 @@ def check_c09(tier, seed):
     for t in tw:
         accept_units.append(decl_unit(t["pos"], meta=dict(twin=t)))
     reject_units = [decl_unit(t["neg"], meta=dict(twin=t)) for t in tw]
+    pair_units = [pair_unit("pair_%04d" % k, t["pos"], t["neg"], neg_first=(k % 2 == 1)) for k, t in enumerate(tw)]
+    for u, t in zip(pair_units, tw):
+        u.meta["twin"] = t
     cov = dict(evaluations=0, distinct_nontrivial=0, rule="", samples=[], programs_must_accept=len(accept_units), programs_must_reject=len(reject_units),
                accepted_ok=0, rejected_ok=0, rules_exercised={}, macro_profiles=macro_profiles, rustc={}, exhaustive=False, error_codes={})
     combos = set()
@@ -105,8 +125,24 @@ def check_c09(tier, seed):
             art = cm.artifacts(mp)
             ea, sa = cm.outcomes(accept_units, art, "c09-acc-" + mp)
             er, sr = cm.outcomes(reject_units, art, "c09-rej-" + mp)
-            cov["rustc"][mp] = dict(accept=sa, reject=sr)
-            cov["evaluations"] += len(accept_units) + len(reject_units)
+            # both twins inside one compilation unit, alternating order: acceptance must not depend on what the macro saw before
+            ep, sp = cm.outcomes(pair_units, art, "c09-pair-" + mp, iterate=False, batch_size=30)
+            cov["rustc"][mp] = dict(accept=sa, reject=sr, pairs=sp)
+            cov["evaluations"] += len(accept_units) + len(reject_units) + len(pair_units)
+            cov["pair_units"] = len(pair_units)
+            for u in pair_units:
+                t = u.meta["twin"]
+                parts_failed = {pn for pn, code, msg in ep.get(u.uid, [])}
+                if "pos" in parts_failed and not [e for e in ea.get("rp_" + t["neg"]["id"][3:], []) if e[0] != "helpers"]:
+                    msg = [m for pn, c_, m in ep[u.uid] if pn == "pos"][0]
+                    rec = dict(kind="rule-valid-rejected", what="a rule-valid declaration is rejected when it is compiled in the same crate as its rule-invalid twin", case=u.uid, program=unit_text(u),
+                               observed="rejected: " + msg[:200], expected="accepted", macro_profile=mp, replay_kind="compile-pair", expect="pos-accept")
+                    res.violations.append((dict(category="order-dependent-acceptance", shape=t["shape"]), rec))
+                if "neg" not in parts_failed and er.get("rn_" + t["neg"]["id"][3:]):
+                    rec = dict(kind="rule-invalid-accepted", what="a declaration that breaks rule '%s' compiles when its rule-valid twin is compiled in the same crate %s it" % (t["rule"], "after" if u.lines[1].strip().startswith("pub mod neg") else "before"),
+                               case=u.uid, rule=t["rule"], shape=t["shape"], program=unit_text(u), observed="accepted", expected="compile error located at the declaration", macro_profile=mp,
+                               replay_kind="compile-pair", expect="neg-reject")
+                    res.violations.append((dict(category="order-dependent-acceptance", shape=t["shape"]), rec))
             for u in accept_units:
                 errs = [e for e in ea.get(u.uid, []) if e[0] != "helpers"]
                 c = u.meta["case"]
@@ -347,6 +383,13 @@ def c14_extra_cases():
     add("fieldov1", 16, [uint_field("a", [(0, 7)]), uint_field("b", [(7, 14)])])
     add("fieldov2", 16, [uint_field("a", [(0, 3)], array=arr(2, 4)), bool_field("b", 7)])
     add("fieldov3", 16, [uint_field("a", [(0, 3), (8, 11)]), uint_field("b", [(10, 13)])])
+    add("elemov3", 32, [uint_field("a", [(0, 1), (8, 9)], array=arr(3, 4))])                       # elements 0 and 2 share bits, neighbours do not
+    add("elemov4", 64, [uint_field("a", [(0, 0), (12, 12)], array=arr(5, 4))])                     # elements i and i+3 share a bit
+    add("elemov5", 32, [bool_field("pad", 31), uint_field("a", [(0, 1), (8, 9)], array=arr(3, 4))])
+    # more declared fields than the storage has bits (read-only fields overlapping the writable ones)
+    add("many8", 8, [bool_field("r%d" % k, k, access="r") for k in range(8)] + [uint_field("cmd", [(0, 3)], access="w"), uint_field("arg", [(4, 7)], access="w")])
+    add("many16", 16, [bool_field("r%d" % k, k, access="r") for k in range(16)] + [uint_field("lo", [(0, 7)], access="rw"), uint_field("hi", [(8, 15)], access="w")], default=False)
+    add("many8b", 8, [uint_field("w0", [(0, 3)], access="w")] + [bool_field("r%d" % k, k, access="r") for k in range(8)] + [uint_field("w1", [(4, 7)], access="w")])
     add("ro_ov", 16, [uint_field("a", [(0, 7)]), uint_field("b", [(4, 11)], access="r")])          # overlap with a read-only field is fine
     add("gap_nodef", 16, [uint_field("a", [(0, 7)])], default=False)                               # incomplete, no default
     add("gap_ro_nodef", 16, [uint_field("a", [(0, 7)]), uint_field("b", [(8, 15)], access="r")], default=False)
